@@ -172,6 +172,22 @@ func Gen(r *lib.Rand, n int, base int, o Options) []*Op {
 					op.Carrier = "float64"
 				}
 			}
+			if r.P(0.04) {
+				// a wide failing object: several dozen distinct messages in one result (sizes around the powers of
+				// two where an implementation may switch from scanning to indexing)
+				nm := []int{17, 33, 40, 65}[r.Intn(4)]
+				props, members := map[string]any{}, map[string]any{}
+				for k := 0; k < nm; k++ {
+					props[fmt.Sprintf("m%02d", k)] = map[string]any{"type": "integer"}
+					members[fmt.Sprintf("m%02d", k)] = "x"
+				}
+				if r.Bool() {
+					members["m07"] = gen.I(7) // one member is fine
+				}
+				doc = map[string]any{"type": "object", "properties": map[string]any{tag: map[string]any{"type": "object", "properties": props}}}
+				wrapped = map[string]any{tag: members}
+				op.Early, op.Carrier, op.OptSet = "", "float64", ""
+			}
 			op.Schema, op.Inst = gen.JSON(doc), gen.JSON(wrapped)
 		case 2, 3:
 			op.Kind = "param"
@@ -203,6 +219,17 @@ func Gen(r *lib.Rand, n int, base int, o Options) []*Op {
 			}
 		}
 		ops = append(ops, op)
+	}
+	// verbatim repeats: some calls are exact copies of an earlier call of the history (same tag, schema, instance,
+	// options), so that whatever is remembered by message text or by name meets the same texts and names again
+	for i := 1; i < len(ops); i++ {
+		if r.P(0.08) {
+			j := r.Intn(i)
+			if ops[j].Kind != "spec" {
+				cp := *ops[j]
+				ops[i] = &cp
+			}
+		}
 	}
 	return ops
 }
